@@ -64,7 +64,7 @@ def gen_case(rng, focus=None):
             "hold": hold, "start_fails": start_fails, "read_size": read_size,
             "out": [hexs(c) for c in outc], "err": [hexs(c) for c in errc], "ins": ins, "sched": sched,
             "hide": rng.choice([True, True, False, "out", "err", "both", None]), "explicit": rng.random() < 0.4,
-            "async": rng.random() < 0.25}
+            "async": rng.random() < 0.25, "async_cfg": rng.random() < 0.4}
 
 
 def hidden_flags(c):
@@ -95,7 +95,8 @@ def run_impl(c):
     return gate.run_schedule(c["sched"], out=[binascii.unhexlify(x) for x in c["out"]],
                              err=[binascii.unhexlify(x) for x in c["err"]], in_script=in_script, in_tty=c["in_tty"],
                              pty=c["pty"], hold_open=c["hold"], start_fails=c["start_fails"], read_size=c["read_size"],
-                             explicit_streams=c.get("explicit", True), asynchronous=c.get("async", False), joins=c.get("joins", 1), **kw)
+                             explicit_streams=c.get("explicit", True), asynchronous=c.get("async", False), joins=c.get("joins", 1),
+                             async_via_config=bool(c.get("async") and c.get("async_cfg")), **kw)
 
 
 def codes(s):
